@@ -98,3 +98,39 @@ func Harness_C18_q_history_from_empty() {
 	verif.Assert(err == nil && verif.Eq(g, v3), "set-after-delete-returns-new-value")
 	verif.Reach("end")
 }
+
+// Overwrites on ONE storage handle across size classes (a single byte, just over the
+// 32-byte read chunk, 1024 and 1025 bytes): after every Set the same handle, and a fresh one,
+// return the value last set - whatever an implementation keeps in memory between calls.
+func Harness_C18_q_overwrite_size_classes() {
+	dir := verif.TempDir("c18o")
+	st, _ := NewFileStorage(dir)
+	k := ssKey("k")
+	lens := []int{1, 33, 1024, 1025}
+	v1 := verif.Bytes("v1", lens[verif.Choice("len1", len(lens))])
+	v2 := verif.Bytes("v2", lens[verif.Choice("len2", len(lens))])
+	verif.Assert(st.Set(k, v1) == nil, "set-ok")
+	if verif.Choice("read-between", 2) == 1 {
+		g, err := st.Get(k)
+		verif.Assert(err == nil && verif.Eq(g, v1), "get-returns-first-value")
+	}
+	verif.Assert(st.Set(k, v2) == nil, "set-ok")
+	g, err := st.Get(k)
+	verif.Assert(err == nil && verif.Eq(g, v2), "same-handle-returns-last-value-set")
+	st2, _ := NewFileStorage(dir)
+	g2, err2 := st2.Get(k)
+	verif.Assert(err2 == nil && verif.Eq(g2, v2), "fresh-handle-returns-last-value-set")
+	if verif.Choice("then-delete", 2) == 1 {
+		verif.Assert(st.Delete(k) == nil, "delete-ok")
+		_, err = st.Get(k)
+		verif.Assert(err != nil, "same-handle-deleted-is-not-found")
+		st3, _ := NewFileStorage(dir)
+		_, err = st3.Get(k)
+		verif.Assert(err != nil, "reopened-deleted-is-not-found")
+		// a handle that was opened BEFORE the delete and is still in use: the property speaks
+		// of re-opening, not of coherence between live handles (internal expectation only)
+		_, err = st2.Get(k)
+		verif.Assert(err != nil, "inv:older-handle-sees-the-delete")
+	}
+	verif.Reach("end")
+}
